@@ -162,7 +162,7 @@ func (m *vfCtxModel) apply(o *vfCtxOp) string {
 		return fmt.Sprintf("%s,%v", v, ok)
 	case "Reqs", "CloneReq":
 		return vfDump(m.req)
-	case "AddResp":
+	case "AddResp", "ReadResp":
 		m.resp[o.k] = o.v
 		return ""
 	case "Resp":
@@ -227,7 +227,7 @@ func vfLinearizable(ops []*vfCtxOp, init *vfCtxModel) bool {
 	return rec(init, 0)
 }
 
-var vfCtxAlphabet = []string{"AddReq:a", "AddReq:b", "Req:a", "Reqs", "AddResp:a", "Resp:a", "Resps", "SetTO", "TO", "AddEph:a", "Eph:a", "Ephs", "Clone", "Cid"}
+var vfCtxAlphabet = []string{"AddReq:a", "AddReq:b", "Req:a", "Reqs", "AddResp:a", "Resp:a", "Resps", "SetTO", "TO", "AddEph:a", "Eph:a", "Ephs", "Clone", "Cid", "ReadResp:r"}
 
 func vfSharedMake(scn string) (func(), func(*vsched.Exec) (string, *vsched.Violation)) {
 	// scn: "shared:<op,op>/<op,op>/..."
@@ -268,6 +268,13 @@ func vfSharedMake(scn string) (func(), func(*vsched.Exec) (string, *vsched.Viola
 						m["zz"] = "mutated-copy" // returned maps must be copies
 					case "AddResp":
 						ctx.AddResponseHeader(o.k, o.v)
+					case "ReadResp":
+						// the library reads a response's headers (one user header and the op id) into the context
+						wire := vfEncodeHeaders(map[string]string{o.k: o.v, opIDHeader: "7"})
+						pf := NewFProtocolFactory(thrift.NewTBinaryProtocolFactoryConf(nil))
+						if err := pf.GetProtocol(&thrift.TMemoryBuffer{Buffer: bytes.NewBuffer(wire)}).ReadResponseHeader(ctx); err != nil {
+							panic("ReadResponseHeader: " + err.Error())
+						}
 					case "Resp":
 						v, ok := ctx.ResponseHeader(o.k)
 						o.result = fmt.Sprintf("%s,%v", v, ok)
@@ -541,6 +548,12 @@ func init() {
 							out = append(out, "shared:"+w1+","+w2+"/"+r1+","+r2)
 						}
 					}
+				}
+			}
+			// two updaters of the response headers, each followed by a read of all of them
+			for _, u1 := range []string{"AddResp:b", "ReadResp:r"} {
+				for _, u2 := range []string{"AddResp:c", "ReadResp:q"} {
+					out = append(out, "shared:"+u1+",Resps/"+u2+",Resps")
 				}
 			}
 			if tier == "thorough" {
